@@ -23,7 +23,7 @@ Proof.
   intros a f GM w lat h Ha Hf HG Hm Hh. assert (D : dom a f GM) by (unfold dom; tauto).
   destruct (ge_gp_positive a f GM w D Hm) as (ge & gp & H1 & H2 & P1 & P2).
   exists ge, gp, (gamma a f GM w lat h). repeat split; try assumption.
-  - apply g_closed; exact D.
+  - apply g_closed; assumption.
   - apply gamma_pos; assumption.
 Qed.
 Print Assumptions C16_positivity.
